@@ -115,6 +115,15 @@ func firstClassRule(r *Run, rule string) {
 	uf := w.userFunctionEval()
 	evalExpr := w.evalMethod("Expression")
 	litEval := w.evalMethod("FunctionLiteral")
+	if litEval == nil {
+		// the function value is built by a plain function of the package (it needs nothing of the evaluator)
+		for _, f := range w.Funcs("") {
+			sig := f.Obj.Type().(*types.Signature)
+			if sig.Recv() == nil && sig.Params().Len() == 1 && sig.Results().Len() >= 1 && namedIs(sig.Params().At(0).Type(), astPath, "FunctionLiteral") {
+				litEval = f
+			}
+		}
+	}
 	if callEval == nil || uf == nil || evalExpr == nil || litEval == nil {
 		r.Lost(rule, "call evaluator / function-literal evaluator")
 		return
